@@ -75,7 +75,10 @@ Extra(ip) == CASE ip = "127.0.0.1" -> {[t |-> "[::ffff:7f00:1]", kind |-> "ip"],
                                        [t |-> "127.1", kind |-> "odd"], [t |-> "127.0.1", kind |-> "odd"],
                                        [t |-> "0x7f.0.0.1", kind |-> "odd"], [t |-> "127.000.000.001", kind |-> "odd"],
                                        [t |-> "localhost", kind |-> "hosts"], [t |-> "LOCALHOST", kind |-> "hosts"],
-                                       [t |-> "localhost.", kind |-> "odd"], [t |-> "[::FFFF:127.0.0.1]", kind |-> "ip"]}
+                                       [t |-> "localhost.", kind |-> "odd"], [t |-> "[::FFFF:127.0.0.1]", kind |-> "ip"],
+                                       (* compatibility characters that IDNA mapping turns into "127.0.0.1": circled digits, ideographic full stops
+                                          (written as placeholders because TLC prints ASCII only) *)
+                                       [t |-> "@CIRCLED127@.0.0.1", kind |-> "odd"], [t |-> "127@IDEODOT@0@IDEODOT@0@IDEODOT@1", kind |-> "odd"]}
            [] ip = "::1" -> {[t |-> "[0:0:0:0:0:0:0:1]", kind |-> "ip"], [t |-> "[0000:0000:0000:0000:0000:0000:0000:0001]", kind |-> "ip"],
                              [t |-> "[::0001]", kind |-> "ip"], [t |-> "[0::1]", kind |-> "ip"]}
            [] ip = "0.0.0.0" -> {[t |-> "0", kind |-> "odd"], [t |-> "0x0", kind |-> "odd"], [t |-> "0.0", kind |-> "odd"],
